@@ -359,7 +359,8 @@ pub fn run(ctx: &Ctx) -> Report {
     st.samples.truncate(2);
     total.merge(st);
     // requests that a registry keyed by a concatenation of their parts would take for one
-    let twins = crate::combo::concat_twin_trees();
+    let mut twins = crate::combo::concat_twin_trees();
+    twins.extend(crate::combo::escape_twin_trees());
     let tw = run_shards(16, |shard| {
         let mut st = Stats::new();
         for (i, t) in twins.iter().enumerate().filter(|(i, _)| i % 16 == shard) {
